@@ -26,7 +26,7 @@ mod script;
 
 const NSLOTS: usize = 3;
 /// time limit of a single operation (the machine may be heavily loaded)
-const OP_LIMIT_MS: u64 = 20_000;
+const OP_LIMIT_MS: u64 = 8_000;
 
 // ---------------------------------------------------------------- tracked types
 
@@ -1025,6 +1025,8 @@ fn space(tier: &str) -> &'static Space {
         // (handles, length) enumerations, each over every element type
         let (exhaustive, random): (Vec<(usize, usize)>, u64) = if tier == "thorough" {
             (vec![(3, 1), (3, 2), (3, 3), (2, 4), (3, 4)], 6000)
+        } else if tier == "search" {
+            (vec![(3, 1), (3, 2), (3, 3), (2, 4)], 4000)
         } else {
             (vec![(3, 1), (3, 2), (3, 3), (2, 4)], 600)
         };
@@ -1397,8 +1399,8 @@ fn run_range(seed: u64, tier: &str, from: u64, to: u64, batch: u64, rep: &mut Re
             run_range(seed, tier, from, last, batch, rep);
         }
         from = last + 1;
-        if rep.impl_violations.len() >= 40 {
-            rep.notes.push("stopped early: too many violations".into());
+        if rep.impl_violations.len() >= 3 {
+            rep.notes.push("a range stopped early after 3 violations (each hang costs the time limit)".into());
             return;
         }
     }
